@@ -144,6 +144,23 @@ func init() {
 func c09Forms() []T {
 	c := Bin("<", N("gi"), I(5)) // computed true condition
 	cf := Bin(">", N("gi"), I(5))
+	// logic operators over every pair of operand sources (variable comparison / comparison of a call result) and
+	// truth values: operands a shortcut might not fetch must still be consumed
+	logic := []T{}
+	srcs := []T{c, cf, Bin("<", Call("id", I(1)), I(5)), Bin(">", Call("id", I(1)), I(5))}
+	for _, op := range []string{"&", "|", "&&", "||"} {
+		for _, l := range srcs {
+			for _, r := range srcs {
+				logic = append(logic, Bin(op, l, r))
+			}
+		}
+	}
+	logic = append(logic, Call("second", I(7), Bin("&", c, Bin(">", Call("id", I(1)), I(5)))), L(I(7), Bin("|", cf, Bin("<", Call("id", I(1)), I(5))), I(8)),
+		If(Bin("&", c, Bin(">", Call("id", I(1)), I(5))), I(5)), Asg("x", Bin("|", Bin("<", Call("id", I(1)), I(5)), cf)))
+	return append(logic, c09BaseForms(c, cf)...)
+}
+
+func c09BaseForms(c, cf T) []T {
 	return []T{
 		I(5), N("gi"), Bin("+", N("gi"), I(1)), Bin("*", Bin("+", N("gi"), I(1)), I(2)), Call("id", I(5)), L(I(1), Bin("+", I(1), I(1))), Ix(N("ga"), I(0)),
 		Asg("x", I(5)), Asg("x", Bin("+", N("gi"), I(1))), Asg("x", Call("id", I(5))), Asg("x", Bin("+", N("x"), I(1))),
@@ -168,6 +185,7 @@ func c09Forms() []T {
 
 func c09Prelude() []T {
 	return append(preludeTop(),
+		secondDef(),
 		Asg("lit", Fn(P, Blk(Yld(I(1)), Yld(I(2)), Yld(I(3))))),
 		// returns from an inner loop of two nested loops
 		Asg("retin", Fn(P, For("a", Call("fromto", I(0), I(3)), For("b", Call("fromto", I(0), I(3)), If(Bin("==", N("b"), I(1)), Ret(N("a"))))))),
